@@ -103,7 +103,7 @@ pub fn rows_reply(bytes: &[u8]) -> String {
         }
         match item {
             Ok(row) => {
-                toks.push("r".into());
+                toks.push("row".into());
                 toks.push("?".into()); // consumption is filled in by rows_reply_counted
                 vx::w_dict(&row, &mut toks);
             }
@@ -155,7 +155,7 @@ pub fn rows_reply_counted(bytes: &[u8]) -> String {
         }
         match item {
             Ok(row) => {
-                toks.push("r".into());
+                toks.push("row".into());
                 toks.push(pos.get().to_string());
                 vx::w_dict(&row, &mut toks);
             }
